@@ -320,11 +320,11 @@ func (s *IndexedState) add(ctx *Context, id string, x Map) (string, error) {
 	if rule != nil {
 		// ToDo: Metric(ctx, "RuleUpdated", "location", s.Name, "ruleId", id)
 		Log(DEBUG, ctx, "IndexedState.add", "state", s.Name, "rule", rule, "ruleId", id)
-		if _, scheduled := rule["schedule"]; !scheduled {
+		if !isScheduled(rule) {
 			if err = s.indexRule(ctx, id, rule); err != nil {
 				if oldRule != nil {
 					// The stored rule stays; keep it findable.
-					if _, scheduled := oldRule["schedule"]; !scheduled {
+					if !isScheduled(oldRule) {
 						s.indexRule(ctx, id, oldRule)
 					}
 				}
@@ -344,12 +344,12 @@ func (s *IndexedState) add(ctx *Context, id string, x Map) (string, error) {
 			// The add is rejected and the stored fact stays as it
 			// was: undo the changes made to the rule index above.
 			if rule != nil {
-				if _, scheduled := rule["schedule"]; !scheduled {
+				if !isScheduled(rule) {
 					s.unindexRule(ctx, id, rule)
 				}
 			}
 			if oldRule != nil {
-				if _, scheduled := oldRule["schedule"]; !scheduled {
+				if !isScheduled(oldRule) {
 					s.indexRule(ctx, id, oldRule)
 				}
 			}
@@ -402,6 +402,14 @@ func GetRulePatterns(ctx *Context, rule map[string]interface{}) []map[string]int
 	return events
 }
 
+// isScheduled reports whether the rule has a schedule, in which case
+// it is not in the rule index.  (As in RuleFromMap, a missing, null
+// or empty schedule is no schedule.)
+func isScheduled(rule map[string]interface{}) bool {
+	schedule := rule["schedule"]
+	return schedule != nil && schedule != ""
+}
+
 func (s *IndexedState) indexRule(ctx *Context, id string, rule map[string]interface{}) error {
 	Log(DEBUG, ctx, "IndexedState.indexRule", "state", s.Name, "rule", rule, "ruleId", id)
 	patterns := GetRulePatterns(ctx, rule)
@@ -420,6 +428,10 @@ func (s *IndexedState) indexRule(ctx *Context, id string, rule map[string]interf
 
 func (s *IndexedState) unindexRule(ctx *Context, id string, rule map[string]interface{}) error {
 	Log(DEBUG, ctx, "IndexedState.unindexRule", "state", s.Name, "rule", rule, "ruleId", id)
+	if isScheduled(rule) {
+		// Never indexed (whatever its 'when' is).
+		return nil
+	}
 	patterns := GetRulePatterns(ctx, rule)
 	if patterns == nil {
 		return nil
